@@ -179,6 +179,20 @@ def twin_decl(rnd, d, tag="B"):
         return [it if isinstance(it, int) else ("set", inline(it[1])) for it in layout]
     t["layout"] = inline(t["layout"])
     rnd.shuffle(t["layout"])
+    # provider indexes follow the order in which the argument list is WRITTEN (the order the generator sees): renumber
+    order = []
+    def walk(layout):
+        for it in layout:
+            if isinstance(it, int):
+                order.append(it)
+            else:
+                walk(it[1])
+    walk(t["layout"])
+    t["provs"] = [t["provs"][i] for i in order]
+    counter = iter(range(len(order)))
+    def renum(layout):
+        return [next(counter) if isinstance(it, int) else (it[0], renum(it[1])) for it in layout]
+    t["layout"] = renum(t["layout"])
     t["meta"] = dict(t["meta"], twin_of=d["name"])
     return t
 
